@@ -4,6 +4,7 @@
 cd /verif
 for d in seeded/*/; do
   n=$(basename $d); [ -f $d/patch.diff ] || continue
+  [ -f $d/neutralised.txt ] && { echo "NEUTRALISED $n"; continue; }
   c=${n%%-*}
   also=$(cat $d/also.txt 2>/dev/null)
   r=$(tools/seed_recheck.sh $n $c $also 2>&1 | grep "^recheck" | tr '\n' ';')
